@@ -54,6 +54,7 @@ var Checks = map[string]func(env *Env, rep *Report){
 	"C14": RunC14,
 	"C15": RunC15,
 	"C09": RunC09,
+	"C08": RunC08,
 	"C16": RunC16,
 	"C20": RunC20,
 	"C06": RunC06,
